@@ -5,8 +5,8 @@ extern "C" {
 #include "containers/qvector.h"
 }
 
-enum { V_ADD, V_GET, V_SET, V_POP, V_REMOVE, V_REVERSE, V_RESIZE, V_CLEAR, V_SIZE, V_TOARRAY, V_WALK, V_LOCKEDWALK, V_DEBUG };
-static const std::vector<std::string> V_NAMES = {"add", "get", "set", "pop", "remove", "reverse", "resize", "clear", "size", "toarray", "walk", "lockedwalk", "debug"};
+enum { V_ADD, V_GET, V_SET, V_POP, V_REMOVE, V_REVERSE, V_RESIZE, V_CLEAR, V_SIZE, V_TOARRAY, V_WALK, V_LOCKEDWALK, V_DEBUG, V_WALKSHRINK };
+static const std::vector<std::string> V_NAMES = {"add", "get", "set", "pop", "remove", "reverse", "resize", "clear", "size", "toarray", "walk", "lockedwalk", "debug", "walk_shrink_continue"};
 enum { NEWMEM = 0x40, NULLDATA = 0x200 };
 
 struct VecWorld;
@@ -28,6 +28,7 @@ struct VecWorld : World {
         c.world = "vector";
         bool mtm = mode == "threads";
         c.set("es", r.chance(1, 3) ? r.pick(std::vector<int>{1, 2, 4, 8, 16, 64}) : r.range(1, 64));
+        if (prop != "C10" && r.chance(1, 8)) c.set("es", r.pick(std::vector<int>{65, 100, 255, 256, 257, 300, 512, 513, 1000}));   // beyond C10's 1..64: copies must be exact for any size
         c.set("initmax", mtm ? r.pick(std::vector<int>{0, 1, 2}) : r.range(0, 8));
         c.set("policy", r.below(3));
         c.set("ts", (mtm || mode == "lockbal") ? 1 : (r.chance(1, 5) ? 1 : 0));
@@ -38,7 +39,7 @@ struct VecWorld : World {
     Op gen_op(Rng &r, const std::string &prop, const std::string &mode, GenState &) override {
         Op op; bool mtm = mode == "threads"; bool c14 = prop == "C14";
         if (mtm) op.k = wpick(r, {{40, V_ADD}, {14, V_GET}, {20, V_POP}, {10, V_REMOVE}, {3, V_CLEAR}, {8, V_TOARRAY}, {5, V_LOCKEDWALK}});
-        else op.k = wpick(r, {{34, V_ADD}, {12, V_GET}, {8, V_SET}, {10, V_POP}, {10, V_REMOVE}, {4, V_REVERSE}, {6, V_RESIZE}, {1, V_CLEAR}, {4, V_SIZE}, {5, V_TOARRAY}, {5, V_WALK},
+        else op.k = wpick(r, {{34, V_ADD}, {12, V_GET}, {8, V_SET}, {10, V_POP}, {10, V_REMOVE}, {4, V_REVERSE}, {6, V_RESIZE}, {1, V_CLEAR}, {4, V_SIZE}, {5, V_TOARRAY}, {5, V_WALK}, {2, V_WALKSHRINK},
                               {c14 ? 3 : 0, V_DEBUG}, {c14 ? 5 : 0, V_LOCKEDWALK}});
         op.a = (int)r.below(64);
         op.b = (int)r.below(1 << 20);
@@ -48,7 +49,7 @@ struct VecWorld : World {
         if (c14 && op.k == V_ADD && r.chance(1, 10)) op.d |= NULLDATA;
         return op;
     }
-    bool is_mutation(const Op &op) const override { return op.k == V_ADD || op.k == V_SET || op.k == V_POP || op.k == V_REMOVE || op.k == V_REVERSE || op.k == V_RESIZE || op.k == V_CLEAR; }
+    bool is_mutation(const Op &op) const override { return op.k == V_ADD || op.k == V_SET || op.k == V_POP || op.k == V_REMOVE || op.k == V_REVERSE || op.k == V_RESIZE || op.k == V_CLEAR || op.k == V_WALKSHRINK; }
 
     void init(const Cfg &c) override { cfg = c; es = (int)c.get("es", 4); initmax = (int)c.get("initmax"); policy = (int)c.get("policy"); threadsafe = c.get("ts") != 0; mt = c.get("mt") != 0; }
     Model *new_model() override { return new VecModel(this); }
@@ -69,6 +70,7 @@ struct VecWorld : World {
     void sut_destroy(Ctx &) override { if (q) { InSut s; q->free(q); } q = nullptr; }
     void sut_abandon() override { q = nullptr; }
     void *sut_mutex() override { return q ? q->qmutex : nullptr; }
+    bool sut_user_lock() override { InSutLock s; q->lock(q); return true; }
     void sut_force_unlock() override { InSutLock s; q->unlock(q); }
     void sut_probe(Ctx &) override { InSut s; q->getat(q, 0, false); }
 
@@ -130,10 +132,11 @@ struct VecWorld : World {
             bool newmem = op.d & NEWMEM;
             if (op.k == V_LOCKEDWALK) { InSutLock s; q->lock(q); }
             qvector_obj_t o; memset(&o, 0, sizeof o);
-            Bytes out; size_t cnt = 0, guard = q->num * 2 + 8; bool failed = false;
+            Bytes out; size_t cnt = 0, guard = q->num * 2 + 8; bool failed = false; int fired_seen = sim_fault_fired(), retries = 0;
             for (;;) {
                 bool more; { InSut s; more = q->getnext(q, &o, newmem); }
-                if (!more) { if (sim_fault_fired() > 0) failed = true; break; }
+                if (!more && newmem && sim_fault_fired() > fired_seen && retries < 1) { fired_seen = sim_fault_fired(); retries++; x.st.add("probe.walk_step_retried_after_enomem"); continue; }
+                if (!more) { if (sim_fault_fired() > fired_seen) failed = true; break; }
                 Bytes e((const char *)o.data, (size_t)es);
                 if (newmem) x.hold(o.data, e, "vector.getnext(newmem)");
                 enc(out, e);
@@ -141,6 +144,19 @@ struct VecWorld : World {
             }
             if (op.k == V_LOCKEDWALK) { InSutLock s; q->unlock(q); }
             return failed ? R_fail(out) : R_ok(out + "$");
+        }
+        case V_WALKSHRINK: {
+            // walk j steps, shrink the vector below the cursor, keep calling getnext with the old cursor: it must report the end
+            qvector_obj_t o; memset(&o, 0, sizeof o);
+            Bytes out; size_t steps = (size_t)(op.a % 5) + 1, cnt = 0;
+            for (; cnt < steps; cnt++) { bool more; { InSut s; more = q->getnext(q, &o, false); } if (!more) break; enc(out, Bytes((const char *)o.data, (size_t)es)); }
+            size_t n0; { InSut s; n0 = q->size(q); }
+            size_t drop = (size_t)(op.b % 4) + 1;
+            for (size_t k = 0; k < drop && k < n0; k++) { InSut s; q->removelast(q); }
+            out += "|";
+            for (size_t k = 0; k < n0 + 4; k++) { bool more; { InSut s; more = q->getnext(q, &o, false); } if (!more) { out += "$"; break; } enc(out, Bytes((const char *)o.data, (size_t)es)); }
+            x.st.add("probe.getnext_with_cursor_past_the_end");
+            return R_ok(out);
         }
         case V_DEBUG: {
             FILE *f = fopen("/dev/null", "w"); bool ok;
@@ -196,6 +212,15 @@ Result VecModel::apply(const Op &op) {
     case V_SIZE: return R_ok(num((long long)n));
     case V_TOARRAY: { if (n == 0) return R_fail("0"); Bytes all; for (auto &e : v) all += e; return R_ok(num((long long)n) + ":" + encs(all)); }
     case V_WALK: case V_LOCKEDWALK: { Bytes o; for (auto &e : v) enc(o, e); return R_ok(o + "$"); }
+    case V_WALKSHRINK: {
+        Bytes out; size_t steps = (size_t)(op.a % 5) + 1, cnt = 0;
+        for (; cnt < steps && cnt < v.size(); cnt++) enc(out, v[cnt]);
+        size_t drop = (size_t)(op.b % 4) + 1;
+        for (size_t k = 0; k < drop && !v.empty(); k++) v.pop_back();
+        out += "|";
+        for (size_t k = cnt; k < v.size(); k++) enc(out, v[k]);
+        return R_ok(out + "$");
+    }
     case V_DEBUG: return R_ok();
     }
     return R_ok();
